@@ -711,6 +711,13 @@ func (hni *HyperNodesInfo) deleteHyperNode(name string) {
 	}
 	delete(hni.hyperNodes, name)
 	hni.removeFromTierSet(name, hn.tier)
+	// A HyperNode that still lists the deleted one as a member has just been rebuilt and
+	// registered it as a child again. Children must only name HyperNodes that have an entry
+	// (consumers such as the network-topology-aware plugin index hyperNodes by child name),
+	// so drop the deleted name; addChild re-creates the entry if the parent is rebuilt later.
+	for _, other := range hni.hyperNodes {
+		other.Children.Delete(name)
+	}
 }
 
 // markHyperNodeIsDeleting marks a HyperNode as being deleted.
